@@ -163,3 +163,15 @@ package tls
 //@   at before call verifyServerCertificate#0: assert first_handshake: arg0.handshakes == 0
 //@   at before call bytes.Equal#0: assert renegotiation_only: called(bytes.Equal, 0) ==> !called(verifyServerCertificate, 0)
 //@   at before call verifyServerCertificate#0: assert chain_of_message12: arg1 == certMsg.certificates
+
+// C34 / C33 (both roles): the extension of (*Conn).readHandshake for the uTLS-specific handshake message types. For
+// every type byte the result is either a fresh, empty message object of the matching kind (which readHandshake then
+// fills with the unmarshal methods verified in verif_contracts_hs.go, panic-free for arbitrary bytes) or an error;
+// nothing is dereferenced besides the connection.
+//@ func (*Conn).utlsHandshakeMessageType
+//@   property C34 C33 C22 C21
+//@   requires c != nil
+//@   ensures compressed_cert: msgType == utlsTypeCompressedCertificate ==> ret1 == nil && istype(ret0, *utlsCompressedCertificateMsg) && ret0.(*utlsCompressedCertificateMsg) != nil && fresh(ret0.(*utlsCompressedCertificateMsg))
+//@   ensures ee_client: msgType == utlsTypeEncryptedExtensions && old(c.isClient) ==> ret1 == nil && istype(ret0, *encryptedExtensionsMsg) && ret0.(*encryptedExtensionsMsg) != nil
+//@   ensures ee_server: msgType == utlsTypeEncryptedExtensions && !old(c.isClient) ==> ret1 == nil && istype(ret0, *utlsClientEncryptedExtensionsMsg) && ret0.(*utlsClientEncryptedExtensionsMsg) != nil
+//@   ensures other: msgType != utlsTypeCompressedCertificate && msgType != utlsTypeEncryptedExtensions ==> ret0 == nil && called(sendAlert, 0) && callarg(sendAlert, 0, 1) == alertUnexpectedMessage
